@@ -125,18 +125,48 @@ theorem foreign_owner_fails (h : Heap) (hk : (AList.keys h).Nodup) (id : SlabID)
   exact hown (hh'.owner _ he s t h1 h2).symm
 
 /-- The all-child-references query returns exactly the resolvable and the broken references
-    reachable from the given slab (on a heap without reference cycles below it, where the Go loop
-    terminates): a reference is reported iff it is the target of an edge whose source is reachable
-    from the root through resolvable slabs. -/
+    reachable from the given slab, on EVERY heap with unique keys and no reference cycle below the
+    slab (no `Healthy` hypothesis; references may be broken): an identifier is reported iff it is the
+    target of a reference held by a slab that `root` reaches - necessarily through slabs of the heap,
+    only they have references - as a reference when it is a slab of the heap, as a broken reference
+    when it is not.  (A slab reachable along several paths is listed once per path, as in Go.) -/
+theorem allrefs_general (h : Heap) (hk : (AList.keys h).Nodup) (root : SlabID)
+    (hroot : AList.contains h root = true) (hac : NoCycleBelow h root) :
+    ∃ refs broken, allChildReferences h root = .ok (refs, broken) ∧
+      (∀ id, id ∈ refs ↔ (AList.contains h id = true ∧ ∃ p, Reach h root p ∧ (p, id) ∈ edges h)) ∧
+      (∀ id, id ∈ broken ↔ (AList.contains h id = false ∧ ∃ p, Reach h root p ∧ (p, id) ∈ edges h)) :=
+  allChildReferences_general h hk root hroot hac
+
+/-- The query never returns a truncated answer: it reports `diverges` exactly when there is a
+    reference cycle below the slab (where the Go loop does not terminate, see DESIGN 13.4). -/
+theorem allrefs_diverges_iff (h : Heap) (hk : (AList.keys h).Nodup) (root : SlabID)
+    (hroot : AList.contains h root = true) :
+    allChildReferences h root = .error .diverges ↔ ¬ NoCycleBelow h root :=
+  allChildReferences_diverges_iff h hk root hroot
+
+/-- The healthy case: nothing is broken and the references are the slabs below `root`.
+    (STATEMENT CHANGED with the explicit divergence outcome: `allChildReferences` now returns
+    `Except HErr _`, so `= some (refs, broken)` became `= .ok (refs, broken)`.) -/
 theorem allrefs_exact (h : Heap) (hk : (AList.keys h).Nodup) (R : List SlabID) (hh : Healthy h R)
     (root : SlabID) (hroot : AList.contains h root = true) :
-    ∃ refs broken, allChildReferences h root = some (refs, broken) ∧ broken = [] ∧
+    ∃ refs broken, allChildReferences h root = .ok (refs, broken) ∧ broken = [] ∧
       (∀ id, id ∈ refs ↔ (Reach h root id ∧ id ≠ root)) :=
   allChildReferences_healthy h hk R hh root hroot
 
+/-- The verdict does not depend on the order in which the slabs are visited (Go iterates maps in
+    random order): two orders of one heap with unique keys are accepted together, with the same set
+    of roots, and when both runs fail without diverging the same check fired. -/
+theorem check_order_independent (h h' : Heap) (hk : (AList.keys h).Nodup) (hp : h.Perm h')
+    (expected : Option Nat) :
+    (∀ R, check h expected = .ok R → ∃ R', check h' expected = .ok R' ∧ ∀ id, id ∈ R' ↔ id ∈ R) ∧
+    (∀ R', check h' expected = .ok R' → ∃ R, check h expected = .ok R ∧ ∀ id, id ∈ R ↔ id ∈ R') ∧
+    (∀ k k', check h expected = .error k → check h' expected = .error k' → k ≠ .diverges →
+      k' ≠ .diverges → k' = k) :=
+  Health.check_order_independent h h' hk hp expected
+
 /-! ### Decidable equality of check results (for the `decide` examples below) -/
 
-instance decEqCheckResult : DecidableEq (Except HErr (List SlabID))
+instance decEqCheckResult {α : Type} [DecidableEq α] : DecidableEq (Except HErr α)
   | .ok a, .ok b =>
     if hab : a = b then isTrue (by rw [hab]) else isFalse (by intro e; cases e; exact hab rfl)
   | .error a, .error b =>
@@ -240,7 +270,7 @@ theorem exHeap_healthy : Healthy exHeap [exRoot2, exRoot1] where
 
 /-- the all-child-references query on the example -/
 theorem exHeap_allrefs :
-    allChildReferences exHeap exRoot1 = some ([exIdx, exA, exB, exC, exD], []) := by decide
+    allChildReferences exHeap exRoot1 = .ok ([exIdx, exA, exB, exC, exD], []) := by decide
 
 /-- corruption 1: a referenced slab (`a`, an inner slab; `d`, a leaf) is deleted -/
 theorem exHeap_delete_inner :
@@ -253,8 +283,37 @@ theorem exHeap_delete_leaf :
 
 /-- the broken reference is also what the all-child-references query reports -/
 theorem exHeap_delete_allrefs :
-    allChildReferences (AList.erase exHeap exD) exRoot1 = some ([exIdx, exA, exB, exC], [exD]) := by
+    allChildReferences (AList.erase exHeap exD) exRoot1 = .ok ([exIdx, exA, exB, exC], [exD]) := by
   decide
+
+/-- `allrefs_general` applies to that heap (one broken reference, no cycle) -/
+example : NoCycleBelow (AList.erase exHeap exD) exRoot1 := by
+  intro x y _ hxy hyx
+  -- the rank "index of the slab" strictly increases along every edge of the example
+  have hrk : ∀ e ∈ edges (AList.erase exHeap exD), e.1.idx < e.2.idx := by decide
+  have hmono : ∀ a b, Reach (AList.erase exHeap exD) a b → a.idx ≤ b.idx := by
+    intro a b hr
+    induction hr with
+    | refl => exact Nat.le_refl _
+    | step _ he ih => have := hrk _ he; simp only at this; omega
+  have h1 := hrk _ hxy
+  have h2 := hmono _ _ hyx
+  simp only at h1
+  omega
+
+/-- a reference cycle below the root (A -> B -> A, A -> L; no slab has two parents): the model
+    reports that the Go functions do not return (observation O-cycle, DESIGN 13.4) -/
+def cycA : SlabID := ⟨1, 1⟩
+def cycB : SlabID := ⟨1, 2⟩
+def cycL : SlabID := ⟨1, 3⟩
+def cycHeap : Heap := [(cycA, ⟨cycA, [cycB, cycL]⟩), (cycB, ⟨cycB, [cycA]⟩), (cycL, ⟨cycL, []⟩)]
+
+theorem cycHeap_allrefs_diverges : allChildReferences cycHeap cycA = .error .diverges := by decide
+
+theorem cycHeap_check_diverges : check cycHeap none = .error .diverges := by decide
+
+example : ¬ NoCycleBelow cycHeap cycA :=
+  (allrefs_diverges_iff cycHeap (by decide) cycA (by decide)).mp cycHeap_allrefs_diverges
 
 /-- corruption 2: an extra slab that nobody references, with the original expected root count -/
 theorem exHeap_extra_unreferenced :
@@ -269,6 +328,19 @@ theorem exHeap_double_reference :
 theorem exHeap_foreign_owner :
     check ((⟨2, 7⟩, ⟨⟨2, 7⟩, [exRoot1]⟩) :: exHeap) (some 2) = .error .owner ∧
     check ((⟨2, 7⟩, ⟨⟨2, 7⟩, [exRoot1]⟩) :: exHeap) none = .error .owner := by decide
+
+/-- the example heap visited in the opposite order: same verdicts (`check_order_independent`), by
+    evaluation -/
+example : check exHeap.reverse (some 2) = .ok [exRoot2, exRoot1] := by decide
+example : check (AList.erase exHeap exA).reverse (some 2) = .error .slabNotFound := by decide
+example : check ((⟨2, 7⟩, ⟨⟨2, 7⟩, [exRoot1]⟩) :: exHeap).reverse none = .error .owner := by decide
+/-- the one pair of outcomes that does depend on the order: a foreign owner on one parent chain, a
+    reference cycle on another -/
+def raceHeap : Heap :=
+  [(⟨1, 1⟩, ⟨⟨1, 1⟩, [⟨1, 2⟩, ⟨1, 3⟩]⟩), (⟨1, 2⟩, ⟨⟨1, 2⟩, [⟨1, 1⟩]⟩), (⟨1, 3⟩, ⟨⟨1, 3⟩, []⟩),
+   (⟨2, 1⟩, ⟨⟨2, 1⟩, [⟨1, 4⟩]⟩), (⟨1, 4⟩, ⟨⟨1, 4⟩, []⟩)]
+example : check raceHeap none = .error .diverges := by decide
+example : check raceHeap.reverse none = .error .owner := by decide
 
 /-- the general theorems apply to the example (their hypotheses are satisfiable) -/
 example : ∀ R', check (AList.erase exHeap exA) (some 2) ≠ .ok R' :=
